@@ -493,6 +493,139 @@ func polyCutCase(c *hlib.Ctx, exact, d3 bool) {
 	c.Stat("polycut_points_outside", len(pts)-len(inside))
 }
 
+// ---------------------------------------------------------------- kind prect
+
+// runPolyRect: the REAL NewConvexPolytopeRect(min, max) (2-D and 3-D, q and f): its constraints, its half-space
+// test, the box Solid() reports and Solid().Contains, against the requirement: the constraints are
+// rectCons3/rectCons2 (tie theorem M3d.KernelsTie.Polytope.newConvexPolytopeRect on the regenerated source), the
+// half-space test IS the box test of [min, max] (M3d.C03.rect_polytope_contains), Solid() reports [min, max]
+// (M3d.C03.rect_polytope_mesh_box, min <= max) and contains exactly the points of [min, max]
+// (M3d.C03.wrapper_does_not_cut_polytope_rect) — nothing leaks, nothing is cut.  All arithmetic of the real code
+// is exact on these systems (normals are signed unit vectors, |det| = 1), so f mode is compared exactly as well.
+// Thickness: positive and at least 1e-4*scale per axis (Mesh()'s Repair(epsilon) merges vertices closer than
+// 1e-8*scale — not modelled), sometimes exactly 0 on ONE axis (a flat rect), sometimes inverted on one axis (empty).
+func runPolyRect(c *hlib.Ctx) {
+	n := c.N/6 + 8
+	for i := 0; i < n; i++ {
+		polyRectCase(c, i%2 == 0, i%3 != 2)
+	}
+}
+
+func polyRectCase(c *hlib.Ctx, exact, d3 bool) {
+	mode := "f"
+	if exact {
+		mode = "q"
+	}
+	g := &gen{c: c, exact: exact, rec: newRecorder()}
+	nd := dims(d3)
+	var lo, hi pt
+	scale := 1.0
+	if !exact {
+		scale = []float64{1, 1, 1e3, 1e-3, 1e6}[c.Rng.Intn(5)]
+	}
+	for i := 0; i < nd; i++ {
+		if exact {
+			lo[i] = g.num(6)
+			hi[i] = lo[i] + float64(c.Rng.Intn(6*32)+1)/32
+		} else {
+			lo[i] = g.num(6) * scale
+			hi[i] = lo[i] + math.Max(c.Rng.Float64()*6, 1e-3)*scale
+		}
+	}
+	shape := "box"
+	switch c.Rng.Intn(12) {
+	case 0: // flat on one axis
+		i := c.Rng.Intn(nd)
+		hi[i] = lo[i]
+		shape = "flat"
+	case 1: // inverted on one axis: the empty polytope
+		i := c.Rng.Intn(nd)
+		lo[i], hi[i] = hi[i], lo[i]
+		shape = "inverted"
+	}
+	deltas := []float64{1.0 / 1024, 1.0 / 32, 0.25}
+	if !exact {
+		deltas = []float64{1e-12 * scale, 1e-9 * scale, 1e-6 * scale, 1e-3 * scale, 0.3 * scale}
+	}
+	pts := shellPoints(c, lo, hi, d3, deltas, g.snap, 28)
+	pts = append(pts, boxPts(lo, hi, d3, g.inward()*scale)...)
+	if !exact {
+		// one ulp outside / inside each face
+		for i := 0; i < nd; i++ {
+			p := pt{(lo[0] + hi[0]) / 2, (lo[1] + hi[1]) / 2, (lo[2] + hi[2]) / 2}
+			q, r, t := p, p, p
+			p[i] = math.Nextafter(hi[i], math.Inf(1))
+			q[i] = math.Nextafter(lo[i], math.Inf(-1))
+			r[i] = math.Nextafter(hi[i], math.Inf(-1))
+			t[i] = math.Nextafter(lo[i], math.Inf(1))
+			for _, u := range []pt{p, q, r, t} {
+				// the driver's rational -> double conversion does not produce subnormals: keep them out
+				if u[i] == 0 || math.Abs(u[i]) > 1e-290 {
+					pts = append(pts, u)
+				}
+			}
+		}
+	}
+	site := "corr:c03 prect-" + mode
+	op := fmt.Sprintf("c03 prect %s %d %s %s %d", mode, nd, fpt(lo), fpt(hi), len(pts))
+	for _, p := range pts {
+		op += " " + fpt(p)
+	}
+	var out string
+	res := hlib.Guard(func() string {
+		var s sol
+		var und func(p pt) bool
+		if d3 {
+			P := model3d.NewConvexPolytopeRect(c3(lo), c3(hi))
+			out = fmt.Sprintf("%d", len(P))
+			for _, l := range P {
+				out += " " + fpt(p3(l.Normal)) + " " + num(l.Max)
+			}
+			und = func(p pt) bool { return P.Contains(c3(p)) }
+			s = sol3{P.Solid()}
+		} else {
+			P := model2d.NewConvexPolytopeRect(c2(lo), c2(hi))
+			out = fmt.Sprintf("%d", len(P))
+			for _, l := range P {
+				out += " " + fptD(p2(l.Normal), false) + " " + num(l.Max)
+			}
+			und = func(p pt) bool { return P.Contains(c2(p)) }
+			s = sol2{P.Solid()}
+		}
+		out += " | "
+		for _, p := range pts {
+			out += b2s(und(p))
+		}
+		if shape == "inverted" {
+			out += " | inv"
+		} else {
+			out += " | " + fptD(s.Min(), d3) + " " + fptD(s.Max(), d3) + " " + b2s(validBox(s, d3))
+		}
+		out += " | "
+		mn, mx := s.Min(), s.Max()
+		for _, p := range pts {
+			ct := s.Contains(p)
+			switch {
+			case ct && !inBox(mn, mx, p, d3):
+				out += "x" // contained outside the reported box
+			case ct:
+				out += "1"
+			default:
+				out += "0"
+			}
+		}
+		return "ok"
+	})
+	if res != "ok" {
+		c.EmitSite(op, res, site)
+		return
+	}
+	c.EmitSite(op, out, site)
+	c.Stat("prect_cases_"+mode, 1)
+	c.Stat("prect_shape_"+shape, 1)
+	c.Stat("prect_points", len(pts))
+}
+
 // ---------------------------------------------------------------- polytope leaves of the trees
 
 // polyLeaf: a polytope-derived solid as a MODELLED leaf (`poly` token: the model evaluates
